@@ -91,9 +91,14 @@ Theorem step_refines : forall s o s' r, inv s -> user_ok (abs s) o -> step s o =
 Proof.
   intros s o s' r [Hwf Hna] Hu H. pose proof (abs_len s Hwf) as HL. unfold inv.
   destruct o as [p|z keep|h keep|i h|h| |z|k]; cbn [step] in H.
-  - inversion H; subst; clear H. destruct (add_spec s p Hwf) as (A1 & A2 & A3).
-    split; [split; [exact A1|]|repeat split; auto].
-    rewrite A3. unfold nact_ok in *. cbn [aps aNact]. rewrite app_length. cbn [length]. lia.
+  - unfold add_op, add_refused in H. unfold res_ok.
+    change (acfg (abs s)) with (tcfg s). change (aps (abs s)) with (firstn (sN s) (mem s)).
+    destruct (tcfg s && existsb _ (firstn (sN s) (mem s))) eqn:ER; inversion H; subst; clear H.
+    + destruct (add_slot_spec s p Hwf) as (A1 & A2 & A3).
+      split; [split; [exact A1|]|repeat split; auto]. rewrite A3. unfold nact_ok in *. cbn [aps aNact] in *. auto.
+    + destruct (add_spec s p Hwf) as (A1 & A2 & A3).
+      split; [split; [exact A1|]|repeat split; auto].
+      rewrite A3. unfold nact_ok in *. cbn [aps aNact]. rewrite app_length. cbn [length]. lia.
   - apply remove_idx_spec in H; auto. destruct H as (W & O & _ & _ & H).
     unfold res_ok. fold (valid_idx (abs s) z).
     destruct (valid_idx (abs s) z && negb (refused (abs s) keep)) eqn:E.
@@ -215,7 +220,9 @@ Qed.
 Lemma step_wf : forall s o s' r, wf s -> step s o = (s', r) -> wf s' /\ oob s' = oob s.
 Proof.
   intros s o s' r Hwf H. destruct o as [p|z keep|h keep|i h|h| |z|k]; cbn [step] in H.
-  - inversion H; subst. destruct (add_spec s p Hwf) as (A1 & A2 & _). auto.
+  - unfold add_op in H. destruct (add_refused s p); inversion H; subst.
+    + destruct (add_slot_spec s p Hwf) as (A1 & A2 & _). auto.
+    + destruct (add_spec s p Hwf) as (A1 & A2 & _). auto.
   - apply remove_idx_spec in H; auto. destruct H as (W & O & _). auto.
   - unfold remove_hash in H. destruct (by_hash s h) as [s1 [i|]] eqn:EB;
       apply by_hash_spec in EB; auto; destruct EB as (W1 & O1 & _).
